@@ -19,7 +19,7 @@ IPFrames == { [Base EXCEPT !.ihl = h, !.iplen = n, !.total = t, !.proto = p, !.u
 TCPFrames == { [Base EXCEPT !.iplen = 20 + s, !.total = 20 + s, !.doff = d, !.flags = fl, !.peer = pr, !.tome = me] :
                s \in {0, 1, 12, 13, 19, 20, 21, 24, 28, 40}, d \in 0..15,
                fl \in { {"SYN"}, {"ACK"}, {"SYN", "ACK"}, {"FIN", "ACK"}, {"RST"}, {}, {"PSH", "ACK"} },
-               pr \in {"arp", "route", "none"}, me \in BOOLEAN }
+               pr \in {"arp", "route", "gwless", "onlink", "none"}, me \in BOOLEAN }
 \* TCP options: every layout of up to 3 option bytes over the boundary alphabet, in a 24-byte header
 OptAlphabet == {0, 1, 2, 3, 4, 8, 255}
 Opt3 == { <<a>> : a \in OptAlphabet } \cup { <<a, b>> : a \in OptAlphabet, b \in OptAlphabet }
